@@ -524,6 +524,41 @@ func (m *StateMachine) beginRoundLive(
 			return false
 		}
 
+	case tsi.StepPrevoteDelay:
+		// The round already holds a majority of prevotes without a majority target
+		// (we are late: a restart, or the mirror collected the votes before we entered).
+		// Same as seeing that view while awaiting a proposal:
+		// run the prevote delay and let the strategy consider what is there.
+		if okPHs := m.rejectMismatchedProposedHeaders(initVRV.ProposedHeaders, rlc); len(okPHs) > 0 {
+			req := tsi.ConsiderProposedBlocksRequest{
+				PHs:    okPHs,
+				Result: rlc.PrevoteHashCh,
+			}
+			req.MarkReasonNewHashes(rlc)
+			req.Reason.MajorityVotingPowerPresent = true
+			if !gchan.SendC(
+				ctx, m.log,
+				m.cm.ConsiderProposedBlocksRequests, req,
+				"making consider proposed blocks request from initial prevote delay state",
+			) {
+				return false
+			}
+		}
+
+	case tsi.StepPrecommitDelay:
+		// The round already holds a majority of precommits without a majority target:
+		// submit our own precommit decision and run the precommit delay.
+		if !gchan.SendC(
+			ctx, m.log,
+			m.cm.DecidePrecommitRequests, tsi.DecidePrecommitRequest{
+				VS:     initVRV.VoteSummary.Clone(),
+				Result: rlc.PrecommitHashCh,
+			},
+			"making decide precommit request from initial precommit delay state",
+		) {
+			return false
+		}
+
 	case tsi.StepCommitWait:
 		committingHash := initVRV.VoteSummary.MostVotedPrecommitHash
 		if committingHash == "" {
@@ -561,6 +596,10 @@ func (m *StateMachine) startInitialTimer(ctx context.Context, rlc *tsi.RoundLife
 		rlc.StepTimer, rlc.CancelTimer = m.rt.ProposalTimer(ctx, rlc.H, rlc.R)
 	case tsi.StepAwaitingPrevotes, tsi.StepAwaitingPrecommits:
 		// No timer needed in these starting steps.
+	case tsi.StepPrevoteDelay:
+		rlc.StepTimer, rlc.CancelTimer = m.rt.PrevoteDelayTimer(ctx, rlc.H, rlc.R)
+	case tsi.StepPrecommitDelay:
+		rlc.StepTimer, rlc.CancelTimer = m.rt.PrecommitDelayTimer(ctx, rlc.H, rlc.R)
 	case tsi.StepCommitWait:
 		rlc.StepTimer, rlc.CancelTimer = m.rt.CommitWaitTimer(ctx, rlc.H, rlc.R)
 	default:
